@@ -1,0 +1,10 @@
+//go:build verif
+
+package container
+
+// VerifRingRaw exposes the backing slice and the read/write indices of a ring
+// buffer. It exists only in builds with the `verif` tag and is used by the
+// model-based verification harness to check that consumed slots are zeroed.
+func VerifRingRaw[V any](r *ringBuffer[V]) (buf []V, rIdx, wIdx int) {
+	return r.buf, r.r, r.w
+}
